@@ -1,8 +1,8 @@
 (* C06: property theorems only; each closed by [exact] and followed by Print Assumptions. *)
 From Coq Require Import List NArith ZArith Bool.
 From GoPdf.Base Require Import Bytes Res.
-From GoPdf.Gen Require Import Gen_C06.
-From GoPdf.C06 Require Import Machine MachineProofs AHx A85 RunLen LZW Predict Chain FilterParams Conform CCITT CCITTTables CCITTProofs
+From GoPdf.Gen Require Import Gen_C06 Gen_C06ccitt2d.
+From GoPdf.C06 Require Import Machine MachineProofs AHx A85 RunLen LZW Predict Chain FilterParams Conform CCITT CCITTTables CCITTProofs CCITT2DProofs
   AHxProofs A85Proofs RunLenProofs LZWCodeProofs LZWBitProofs PredictProofs ChainProofs FilterParamsProofs.
 Import ListNotations.
 
@@ -157,3 +157,33 @@ Example g3_hyp :
   row_ok {| g_cols := 13; g_eol := true; g_align := true; g_blackis1 := false; g_ignore_eob := true; g_maxrows := 0 |}
          [255; 0]%N.
 Proof. repeat split; repeat constructor. Qed.
+
+(* ---- CCITTFax two-dimensional coding (K <> 0): the run decoder of the horizontal mode, Reader.decodeFullRun.
+   Its iteration bound full_run_iter is the expression of the `for range` statement in the Go source
+   (Gen_C06ccitt2d.decodeFullRun_bound, regenerated on every run). ---- *)
+
+(* a run written by Writer.encode1DRun is decoded completely iff the loop may run for as many code words as
+   the run has (run_codes n = n/2560 make-up codes of 2560, one more make-up code if needed, the terminating code) *)
+Theorem full_run_complete_iff : forall white cols n iter tail r rb,
+  good r rb -> real r rb = run_bits white n ++ tail -> (n <= cols)%N ->
+  ((run_codes n <= iter)%nat ->
+     exists r' rb', full_run iter cols white 0 r = (n, r') /\ good r' rb' /\ real r' rb' = tail) /\
+  ((iter < run_codes n)%nat ->
+     exists r' rb' left, snd (full_run iter cols white 0 r) = r' /\ good r' rb' /\
+       real r' rb' = left ++ tail /\ left <> []).
+Proof.
+  exact (fun white cols n iter tail r rb G Hs Hn =>
+    conj (full_run_complete white cols n iter tail r rb G Hs Hn) (full_run_incomplete white cols n iter tail r rb G Hs Hn)).
+Qed.
+Print Assumptions full_run_complete_iff.
+
+(* the bound in the source suffices for every run that fits into the line *)
+Theorem full_run_bound : forall cols n, (n <= cols)%N -> (run_codes n <= full_run_iter cols)%nat.
+Proof. exact full_run_bound_suffices. Qed.
+Print Assumptions full_run_bound.
+
+Theorem g4_full_run_rt : forall white cols n tail r rb,
+  good r rb -> real r rb = run_bits white n ++ tail -> (n <= cols)%N ->
+  exists r' rb', decode_full_run cols white r = (n, r') /\ good r' rb' /\ real r' rb' = tail.
+Proof. exact decode_full_run_rt. Qed.
+Print Assumptions g4_full_run_rt.
